@@ -33,6 +33,9 @@ type Db = WalletDb<rusqlite::Connection, LocalNetwork, FixedClock, ChaChaRng>;
 type Prop = Proposal<StandardFeeRule, ReceivedNoteId>;
 type TreeErr = shardtree::error::ShardTreeError<zcash_client_sqlite::wallet::commitment_tree::Error>;
 
+pub static CALL_NS: std::sync::atomic::AtomicU64 = std::sync::atomic::AtomicU64::new(0);
+pub static CALLS: std::sync::atomic::AtomicU64 = std::sync::atomic::AtomicU64::new(0);
+pub static EVAL_NS: std::sync::atomic::AtomicU64 = std::sync::atomic::AtomicU64::new(0);
 pub const MIN_FEE: u64 = 10_000; // ZIP 317: marginal fee 5_000 x grace actions 2
 
 #[derive(Clone, Copy, Debug, PartialEq, Eq, Hash, PartialOrd, Ord, Serialize, Deserialize)]
@@ -320,7 +323,10 @@ pub fn run_request_with(env: &Env, w: &mut Wallet, m: &Model, ledger: &[NoteView
     if req.entry != Entry::SendMax && amount == 0 {
         return Ok(ReqResult { outcomes: vec!["skipped:zero-amount".into()], inputs: None, paid: None });
     }
+    let tc = std::time::Instant::now();
     let res = call(env, w, req, amount)?;
+    CALL_NS.fetch_add(tc.elapsed().as_nanos() as u64, std::sync::atomic::Ordering::Relaxed);
+    CALLS.fetch_add(1, std::sync::atomic::Ordering::Relaxed);
     let mut outs = vec![];
     match res {
         Err(e) => {
@@ -649,6 +655,7 @@ pub fn lattice(thorough: bool) -> Lattice {
 
 /// Evaluate the whole lattice in one state. Returns outcome labels and violations (request key, message, request).
 pub fn eval_state(env: &Env, w: &mut Wallet, m: &Model, lat: &Lattice) -> (Vec<String>, Vec<(Req, String)>, u64) {
+    let te = std::time::Instant::now();
     let ledger = m.ledger(env);
     let mut cache = WitnessCache::default();
     let mut outs = vec![];
@@ -690,5 +697,6 @@ pub fn eval_state(env: &Env, w: &mut Wallet, m: &Model, lat: &Lattice) -> (Vec<S
     if before != after {
         fails.push((lat.reqs[0].clone(), format!("proposals without a lock request changed the lock state: before {before:?} after {after:?}")));
     }
+    EVAL_NS.fetch_add(te.elapsed().as_nanos() as u64, std::sync::atomic::Ordering::Relaxed);
     (outs, fails, n)
 }
